@@ -6,3 +6,4 @@ export CARGO_NET_OFFLINE=true
 (cd factgen && cargo +nightly build --offline)
 python3 -m vlib.gen ws
 python3 -m vlib.gen lib-full
+python3 -c "from vlib import controls; controls.run()"
